@@ -1,6 +1,6 @@
 //! C19 driver: built once per cargo feature set; reads a workload (JSON lines) and writes one
 //! result record per line (flushed per item, so a crash loses only the item it happened in).
-//! An item that makes no progress for 10 s ends the process (exit 3): the harness records the
+//! An item that makes no progress for 5 s ends the process (exit 3): the harness records the
 //! item as "died" for this build and restarts behind it.
 mod ops;
 use std::io::{BufRead, Write};
@@ -39,7 +39,7 @@ fn main() {
     if p != last {
       last = p;
       since = std::time::Instant::now();
-    } else if since.elapsed().as_secs() >= 10 {
+    } else if since.elapsed().as_secs() >= 5 {
       std::process::exit(3);
     }
   }
